@@ -116,6 +116,7 @@ type HealthEvt struct {
 
 type NotifEvt struct {
 	Inst, Gen int
+	Leader    bool // IsLeader() when the notification was injected
 	Kind      string
 	T         time.Duration
 	Step      uint64
